@@ -1,0 +1,585 @@
+//go:build verif
+
+// Contracts checked by /verif/govc (comment-only file; see /verif/DESIGN.md, properties C17 and C18).
+//
+// Pos()/End() of every node type against "offset of the first token" / "offset just after the last token",
+// read off the struct definitions and their field comments. posOf/endOf stand for Pos()/End() of a child held
+// in an interface-typed field; the requires clauses are the well-formedness the parser establishes.
+package ast
+
+//@ ufunc posOf(n Node) token.Pos
+//@ ufunc endOf(n Node) token.Pos
+//@
+//@ interface Node.Pos
+//@   pure
+//@   ensures result == posOf(this)
+//@ interface Node.End
+//@   pure
+//@   ensures result == endOf(this)
+//@
+//@ # ---- ast.go: fields ----
+//@ func (*Field).Pos
+//@   pure
+//@   requires f != nil && (len(f.Names) > 0 ? f.Names[0] != nil : f.Type != nil)
+//@   ensures result == (len(f.Names) > 0 ? f.Names[0].NamePos : posOf(f.Type))
+//@ func (*Field).End
+//@   pure
+//@   requires f != nil && (f.Tag == nil ==> f.Type != nil)
+//@   ensures result == (f.Tag != nil ? End(f.Tag) : endOf(f.Type))
+//@ func (*FieldList).Pos
+//@   pure
+//@   requires f != nil && (f.Opening == 0 && len(f.List) > 0 ==> f.List[0] != nil && (len(f.List[0].Names) > 0 ? f.List[0].Names[0] != nil : f.List[0].Type != nil))
+//@   ensures result == (f.Opening != 0 ? f.Opening : (len(f.List) > 0 ? Pos(f.List[0]) : 0))
+//@ func (*FieldList).End
+//@   pure
+//@   requires f != nil && (f.Closing == 0 && len(f.List) > 0 ==> f.List[len(f.List)-1] != nil && (f.List[len(f.List)-1].Tag == nil ==> f.List[len(f.List)-1].Type != nil))
+//@   ensures result == (f.Closing != 0 ? f.Closing + 1 : (len(f.List) > 0 ? End(f.List[len(f.List)-1]) : 0))
+//@
+//@ # ---- ast.go: expressions ----
+//@ func (*BadExpr).Pos
+//@   pure
+//@   requires x != nil
+//@   ensures result == x.From
+//@ func (*BadExpr).End
+//@   pure
+//@   requires x != nil
+//@   ensures result == x.To
+//@ func (*Ident).Pos
+//@   pure
+//@   requires x != nil
+//@   ensures result == x.NamePos
+//@ func (*Ident).End
+//@   pure
+//@   requires x != nil
+//@   ensures !Implicit(x) ==> result == x.NamePos + token.Pos(len(x.Name))
+//@   ensures Implicit(x) ==> result == x.NamePos
+//@ func (*Ellipsis).Pos
+//@   pure
+//@   requires x != nil
+//@   ensures result == x.Ellipsis
+//@ func (*Ellipsis).End
+//@   pure
+//@   requires x != nil
+//@   ensures result == (x.Elt != nil ? endOf(x.Elt) : x.Ellipsis + 3)
+//@ func (*FuncLit).Pos
+//@   pure
+//@   requires x != nil && x.Type != nil && (x.Type.Func == 0 && x.Type.Params != nil ==> wfFieldListPos(x.Type.Params))
+//@   ensures result == Pos(x.Type)
+//@ func (*FuncLit).End
+//@   pure
+//@   requires x != nil && x.Body != nil && wfBlockEnd(x.Body)
+//@   ensures result == End(x.Body)
+//@ func (*CompositeLit).Pos
+//@   pure
+//@   requires x != nil
+//@   ensures result == (x.Type != nil ? posOf(x.Type) : x.Lbrace)
+//@ func (*CompositeLit).End
+//@   pure
+//@   requires x != nil
+//@   ensures result == x.Rbrace + 1
+//@ func (*ParenExpr).Pos
+//@   pure
+//@   requires x != nil
+//@   ensures result == x.Lparen
+//@ func (*ParenExpr).End
+//@   pure
+//@   requires x != nil
+//@   ensures result == x.Rparen + 1
+//@ func (*SelectorExpr).Pos
+//@   pure
+//@   requires x != nil && x.X != nil
+//@   ensures result == posOf(x.X)
+//@ func (*SelectorExpr).End
+//@   pure
+//@   requires x != nil && x.Sel != nil
+//@   ensures result == End(x.Sel)
+//@ func (*IndexExpr).Pos
+//@   pure
+//@   requires x != nil && x.X != nil
+//@   ensures result == posOf(x.X)
+//@ func (*IndexExpr).End
+//@   pure
+//@   requires x != nil
+//@   ensures result == x.Rbrack + 1
+//@ func (*IndexListExpr).Pos
+//@   pure
+//@   requires x != nil && x.X != nil
+//@   ensures result == posOf(x.X)
+//@ func (*IndexListExpr).End
+//@   pure
+//@   requires x != nil
+//@   ensures result == x.Rbrack + 1
+//@ func (*SliceExpr).Pos
+//@   pure
+//@   requires x != nil && x.X != nil
+//@   ensures result == posOf(x.X)
+//@ func (*SliceExpr).End
+//@   pure
+//@   requires x != nil
+//@   ensures result == x.Rbrack + 1
+//@ func (*TypeAssertExpr).Pos
+//@   pure
+//@   requires x != nil && x.X != nil
+//@   ensures result == posOf(x.X)
+//@ func (*TypeAssertExpr).End
+//@   pure
+//@   requires x != nil
+//@   ensures result == x.Rparen + 1
+//@ func (*CallExpr).Pos
+//@   pure
+//@   requires x != nil && x.Fun != nil
+//@   ensures result == posOf(x.Fun)
+//@ func (*CallExpr).End
+//@   pure
+//@   requires x != nil
+//@   ensures result == (x.NoParenEnd != 0 ? x.NoParenEnd : x.Rparen + 1)
+//@ func (*StarExpr).Pos
+//@   pure
+//@   requires x != nil
+//@   ensures result == x.Star
+//@ func (*StarExpr).End
+//@   pure
+//@   requires x != nil && x.X != nil
+//@   ensures result == endOf(x.X)
+//@ func (*UnaryExpr).Pos
+//@   pure
+//@   requires x != nil
+//@   ensures result == x.OpPos
+//@ func (*UnaryExpr).End
+//@   pure
+//@   requires x != nil && x.X != nil
+//@   ensures result == endOf(x.X)
+//@ func (*BinaryExpr).Pos
+//@   pure
+//@   requires x != nil && x.X != nil
+//@   ensures result == posOf(x.X)
+//@ func (*BinaryExpr).End
+//@   pure
+//@   requires x != nil && x.Y != nil
+//@   ensures result == endOf(x.Y)
+//@ func (*KeyValueExpr).Pos
+//@   pure
+//@   requires x != nil && x.Key != nil
+//@   ensures result == posOf(x.Key)
+//@ func (*KeyValueExpr).End
+//@   pure
+//@   requires x != nil && x.Value != nil
+//@   ensures result == endOf(x.Value)
+//@
+//@ # ---- ast.go: types ----
+//@ pred wfFieldListPos(f *FieldList) := f != nil && (f.Opening == 0 && len(f.List) > 0 ==> f.List[0] != nil && (len(f.List[0].Names) > 0 ? f.List[0].Names[0] != nil : f.List[0].Type != nil))
+//@ pred wfFieldListEnd(f *FieldList) := f != nil && (f.Closing == 0 && len(f.List) > 0 ==> f.List[len(f.List)-1] != nil && (f.List[len(f.List)-1].Tag == nil ==> f.List[len(f.List)-1].Type != nil))
+//@ pred wfBlockEnd(s *BlockStmt) := s != nil && (s.Rbrace == 0 && len(s.List) > 0 ==> s.List[len(s.List)-1] != nil)
+//@ func (*ArrayType).Pos
+//@   pure
+//@   requires x != nil
+//@   ensures result == x.Lbrack
+//@ func (*ArrayType).End
+//@   pure
+//@   requires x != nil && x.Elt != nil
+//@   ensures result == endOf(x.Elt)
+//@ func (*StructType).Pos
+//@   pure
+//@   requires x != nil
+//@   ensures result == x.Struct
+//@ func (*StructType).End
+//@   pure
+//@   requires x != nil && wfFieldListEnd(x.Fields)
+//@   ensures result == End(x.Fields)
+//@ func (*FuncType).Pos
+//@   pure
+//@   requires x != nil && (x.Func == 0 && x.Params != nil ==> wfFieldListPos(x.Params))
+//@   ensures result == (x.Func != 0 || x.Params == nil ? x.Func : Pos(x.Params))
+//@ func (*FuncType).End
+//@   pure
+//@   requires x != nil && (x.Results != nil ? wfFieldListEnd(x.Results) : wfFieldListEnd(x.Params))
+//@   ensures result == (x.Results != nil ? End(x.Results) : End(x.Params))
+//@ func (*InterfaceType).Pos
+//@   pure
+//@   requires x != nil
+//@   ensures result == x.Interface
+//@ func (*InterfaceType).End
+//@   pure
+//@   requires x != nil && wfFieldListEnd(x.Methods)
+//@   ensures result == End(x.Methods)
+//@ func (*MapType).Pos
+//@   pure
+//@   requires x != nil
+//@   ensures result == x.Map
+//@ func (*MapType).End
+//@   pure
+//@   requires x != nil && x.Value != nil
+//@   ensures result == endOf(x.Value)
+//@ func (*ChanType).Pos
+//@   pure
+//@   requires x != nil
+//@   ensures result == x.Begin
+//@ func (*ChanType).End
+//@   pure
+//@   requires x != nil && x.Value != nil
+//@   ensures result == endOf(x.Value)
+//@
+//@ # ---- ast.go: statements ----
+//@ func (*BadStmt).Pos
+//@   pure
+//@   requires s != nil
+//@   ensures result == s.From
+//@ func (*BadStmt).End
+//@   pure
+//@   requires s != nil
+//@   ensures result == s.To
+//@ func (*DeclStmt).Pos
+//@   pure
+//@   requires s != nil && s.Decl != nil
+//@   ensures result == posOf(s.Decl)
+//@ func (*DeclStmt).End
+//@   pure
+//@   requires s != nil && s.Decl != nil
+//@   ensures result == endOf(s.Decl)
+//@ func (*EmptyStmt).Pos
+//@   pure
+//@   requires s != nil
+//@   ensures result == s.Semicolon
+//@ func (*EmptyStmt).End
+//@   pure
+//@   requires s != nil
+//@   ensures result == (s.Implicit ? s.Semicolon : s.Semicolon + 1)
+//@ func (*LabeledStmt).Pos
+//@   pure
+//@   requires s != nil && s.Label != nil
+//@   ensures result == s.Label.NamePos
+//@ func (*LabeledStmt).End
+//@   pure
+//@   requires s != nil && s.Stmt != nil
+//@   ensures result == endOf(s.Stmt)
+//@ func (*ExprStmt).Pos
+//@   pure
+//@   requires s != nil && s.X != nil
+//@   ensures result == posOf(s.X)
+//@ func (*ExprStmt).End
+//@   pure
+//@   requires s != nil && s.X != nil
+//@   ensures result == endOf(s.X)
+//@ func (*SendStmt).Pos
+//@   pure
+//@   requires s != nil && s.Chan != nil
+//@   ensures result == posOf(s.Chan)
+//@ func (*SendStmt).End
+//@   pure
+//@   requires s != nil && (s.Ellipsis == 0 ==> len(s.Values) > 0 && s.Values[len(s.Values)-1] != nil)
+//@   ensures result == (s.Ellipsis != 0 ? s.Ellipsis + 3 : endOf(s.Values[len(s.Values)-1]))
+//@ func (*IncDecStmt).Pos
+//@   pure
+//@   requires s != nil && s.X != nil
+//@   ensures result == posOf(s.X)
+//@ func (*IncDecStmt).End
+//@   pure
+//@   requires s != nil
+//@   ensures result == s.TokPos + 2
+//@ func (*AssignStmt).Pos
+//@   pure
+//@   requires s != nil && len(s.Lhs) > 0 && s.Lhs[0] != nil
+//@   ensures result == posOf(s.Lhs[0])
+//@ func (*AssignStmt).End
+//@   pure
+//@   requires s != nil && len(s.Rhs) > 0 && s.Rhs[len(s.Rhs)-1] != nil
+//@   ensures result == endOf(s.Rhs[len(s.Rhs)-1])
+//@ func (*GoStmt).Pos
+//@   pure
+//@   requires s != nil
+//@   ensures result == s.Go
+//@ func (*GoStmt).End
+//@   pure
+//@   requires s != nil && s.Call != nil
+//@   ensures result == End(s.Call)
+//@ func (*DeferStmt).Pos
+//@   pure
+//@   requires s != nil
+//@   ensures result == s.Defer
+//@ func (*DeferStmt).End
+//@   pure
+//@   requires s != nil && s.Call != nil
+//@   ensures result == End(s.Call)
+//@ func (*ReturnStmt).Pos
+//@   pure
+//@   requires s != nil
+//@   ensures result == s.Return
+//@ func (*ReturnStmt).End
+//@   pure
+//@   requires s != nil && (len(s.Results) > 0 ==> s.Results[len(s.Results)-1] != nil)
+//@   ensures result == (len(s.Results) > 0 ? endOf(s.Results[len(s.Results)-1]) : s.Return + 6)
+//@ func (*BranchStmt).Pos
+//@   pure
+//@   requires s != nil
+//@   ensures result == s.TokPos
+//@ func (*BranchStmt).End
+//@   pure
+//@   requires s != nil && (s.Tok == token.BREAK || s.Tok == token.CONTINUE || s.Tok == token.GOTO || s.Tok == token.FALLTHROUGH)
+//@   ensures s.Label != nil ==> result == End(s.Label)
+//@   ensures s.Label == nil && s.Tok == token.BREAK ==> result == s.TokPos + 5
+//@   ensures s.Label == nil && s.Tok == token.CONTINUE ==> result == s.TokPos + 8
+//@   ensures s.Label == nil && s.Tok == token.GOTO ==> result == s.TokPos + 4
+//@   ensures s.Label == nil && s.Tok == token.FALLTHROUGH ==> result == s.TokPos + 11
+//@ func (*BlockStmt).Pos
+//@   pure
+//@   requires s != nil
+//@   ensures result == s.Lbrace
+//@ func (*BlockStmt).End
+//@   pure
+//@   requires wfBlockEnd(s)
+//@   ensures result == (s.Rbrace != 0 ? s.Rbrace + 1 : (len(s.List) > 0 ? endOf(s.List[len(s.List)-1]) : s.Lbrace + 1))
+//@ func (*IfStmt).Pos
+//@   pure
+//@   requires s != nil
+//@   ensures result == s.If
+//@ func (*IfStmt).End
+//@   pure
+//@   requires s != nil && (s.Else == nil ==> wfBlockEnd(s.Body))
+//@   ensures result == (s.Else != nil ? endOf(s.Else) : End(s.Body))
+//@ func (*CaseClause).Pos
+//@   pure
+//@   requires s != nil
+//@   ensures result == s.Case
+//@ func (*CaseClause).End
+//@   pure
+//@   requires s != nil && (len(s.Body) > 0 ==> s.Body[len(s.Body)-1] != nil)
+//@   ensures result == (len(s.Body) > 0 ? endOf(s.Body[len(s.Body)-1]) : s.Colon + 1)
+//@ func (*SwitchStmt).Pos
+//@   pure
+//@   requires s != nil
+//@   ensures result == s.Switch
+//@ func (*SwitchStmt).End
+//@   pure
+//@   requires s != nil && wfBlockEnd(s.Body)
+//@   ensures result == End(s.Body)
+//@ func (*TypeSwitchStmt).Pos
+//@   pure
+//@   requires s != nil
+//@   ensures result == s.Switch
+//@ func (*TypeSwitchStmt).End
+//@   pure
+//@   requires s != nil && wfBlockEnd(s.Body)
+//@   ensures result == End(s.Body)
+//@ func (*CommClause).Pos
+//@   pure
+//@   requires s != nil
+//@   ensures result == s.Case
+//@ func (*CommClause).End
+//@   pure
+//@   requires s != nil && (len(s.Body) > 0 ==> s.Body[len(s.Body)-1] != nil)
+//@   ensures result == (len(s.Body) > 0 ? endOf(s.Body[len(s.Body)-1]) : s.Colon + 1)
+//@ func (*SelectStmt).Pos
+//@   pure
+//@   requires s != nil
+//@   ensures result == s.Select
+//@ func (*SelectStmt).End
+//@   pure
+//@   requires s != nil && wfBlockEnd(s.Body)
+//@   ensures result == End(s.Body)
+//@ func (*ForStmt).Pos
+//@   pure
+//@   requires s != nil
+//@   ensures result == s.For
+//@ func (*ForStmt).End
+//@   pure
+//@   requires s != nil && wfBlockEnd(s.Body)
+//@   ensures result == End(s.Body)
+//@ func (*RangeStmt).Pos
+//@   pure
+//@   requires s != nil
+//@   ensures result == s.For
+//@ func (*RangeStmt).End
+//@   pure
+//@   requires s != nil && wfBlockEnd(s.Body)
+//@   ensures result == End(s.Body)
+//@
+//@ # ---- ast.go: specs and declarations ----
+//@ func (*ImportSpec).Pos
+//@   pure
+//@   requires s != nil && (s.Name == nil ==> s.Path != nil)
+//@   ensures result == (s.Name != nil ? s.Name.NamePos : s.Path.ValuePos)
+//@ func (*ImportSpec).End
+//@   pure
+//@   requires s != nil && (s.EndPos == 0 ==> s.Path != nil)
+//@   ensures result == (s.EndPos != 0 ? s.EndPos : End(s.Path))
+//@ func (*ValueSpec).Pos
+//@   pure
+//@   requires s != nil && (len(s.Names) == 0 ? s.Type != nil : s.Names[0] != nil)
+//@   ensures result == (len(s.Names) == 0 ? posOf(s.Type) : s.Names[0].NamePos)
+//@ func (*ValueSpec).End
+//@   pure
+//@   requires s != nil && (len(s.Values) > 0 ? s.Values[len(s.Values)-1] != nil : (s.Type == nil ==> len(s.Names) > 0 && s.Names[len(s.Names)-1] != nil))
+//@   ensures result == (len(s.Values) > 0 ? endOf(s.Values[len(s.Values)-1]) : (s.Type != nil ? endOf(s.Type) : End(s.Names[len(s.Names)-1])))
+//@ func (*TypeSpec).Pos
+//@   pure
+//@   requires s != nil && s.Name != nil
+//@   ensures result == s.Name.NamePos
+//@ func (*TypeSpec).End
+//@   pure
+//@   requires s != nil && s.Type != nil
+//@   ensures result == endOf(s.Type)
+//@ func (*BadDecl).Pos
+//@   pure
+//@   requires d != nil
+//@   ensures result == d.From
+//@ func (*BadDecl).End
+//@   pure
+//@   requires d != nil
+//@   ensures result == d.To
+//@ func (*GenDecl).Pos
+//@   pure
+//@   requires d != nil
+//@   ensures result == d.TokPos
+//@ func (*GenDecl).End
+//@   pure
+//@   requires d != nil && (d.Rparen == 0 ==> len(d.Specs) > 0 && d.Specs[0] != nil)
+//@   ensures result == (d.Rparen != 0 ? d.Rparen + 1 : endOf(d.Specs[0]))
+//@ func (*FuncDecl).Pos
+//@   pure
+//@   requires d != nil && d.Type != nil && (d.Type.Func == 0 && d.Type.Params != nil ==> wfFieldListPos(d.Type.Params))
+//@   ensures result == Pos(d.Type)
+//@ func (*FuncDecl).End
+//@   pure
+//@   requires d != nil && (d.Body != nil ? wfBlockEnd(d.Body) : d.Type != nil && (d.Type.Results != nil ? wfFieldListEnd(d.Type.Results) : wfFieldListEnd(d.Type.Params)))
+//@   ensures result == (d.Body != nil ? End(d.Body) : End(d.Type))
+//@
+//@ # ---- ast_gop.go: XGo nodes ----
+//@ func (*OverloadFuncDecl).Pos
+//@   pure
+//@   requires p != nil
+//@   ensures result == p.Func
+//@ func (*OverloadFuncDecl).End
+//@   pure
+//@   requires p != nil
+//@   ensures result == p.Rparen + 1
+//@ func (*DomainTextLit).Pos
+//@   pure
+//@   requires x != nil && x.Domain != nil
+//@   ensures result == x.Domain.NamePos
+//@ func (*DomainTextLit).End
+//@   pure
+//@   requires x != nil
+//@   ensures result == x.ValuePos + token.Pos(len(x.Value))
+//@ func (*BasicLit).Pos
+//@   pure
+//@   requires x != nil
+//@   ensures result == x.ValuePos
+//@ func (*BasicLit).End
+//@   pure
+//@   requires x != nil
+//@   ensures result == x.ValuePos + token.Pos(len(x.Value))
+//@ func (*NumberUnitLit).Pos
+//@   pure
+//@   requires x != nil
+//@   ensures result == x.ValuePos
+//@ func (*NumberUnitLit).End
+//@   pure
+//@   requires x != nil
+//@   ensures result == x.ValuePos + token.Pos(len(x.Value)) + token.Pos(len(x.Unit))
+//@ func (*EnvExpr).Pos
+//@   pure
+//@   requires p != nil
+//@   ensures result == p.TokPos
+//@ func (*EnvExpr).End
+//@   pure
+//@   requires p != nil && (p.Rbrace == 0 ==> p.Name != nil)
+//@   ensures [brace] p.Rbrace != 0 ==> result == p.Rbrace + 1
+//@   ensures [nobrace] p.Rbrace == 0 ==> result == End(p.Name)
+//@ func (*SliceLit).Pos
+//@   pure
+//@   requires p != nil
+//@   ensures result == p.Lbrack
+//@ func (*SliceLit).End
+//@   pure
+//@   requires p != nil
+//@   ensures result == p.Rbrack + 1
+//@ func (*MatrixLit).Pos
+//@   pure
+//@   requires p != nil
+//@   ensures result == p.Lbrack
+//@ func (*MatrixLit).End
+//@   pure
+//@   requires p != nil
+//@   ensures result == p.Rbrack + 1
+//@ func (*ElemEllipsis).Pos
+//@   pure
+//@   requires p != nil && p.Elt != nil
+//@   ensures result == posOf(p.Elt)
+//@ func (*ElemEllipsis).End
+//@   pure
+//@   requires p != nil
+//@   ensures result == p.Ellipsis + 3
+//@ func (*ErrWrapExpr).Pos
+//@   pure
+//@   requires p != nil && p.X != nil
+//@   ensures result == posOf(p.X)
+//@ func (*ErrWrapExpr).End
+//@   pure
+//@   requires p != nil
+//@   ensures result == (p.Default != nil ? endOf(p.Default) : p.TokPos + 1)
+//@ func (*LambdaExpr).Pos
+//@   pure
+//@   requires p != nil
+//@   ensures result == p.First
+//@ func (*LambdaExpr).End
+//@   pure
+//@   requires p != nil
+//@   ensures result == p.Last
+//@ func (*LambdaExpr2).Pos
+//@   pure
+//@   requires p != nil
+//@   ensures result == p.First
+//@ func (*LambdaExpr2).End
+//@   pure
+//@   requires p != nil && wfBlockEnd(p.Body)
+//@   ensures result == End(p.Body)
+//@ func (*RangeExpr).Pos
+//@   pure
+//@   requires p != nil
+//@   ensures result == (p.First != nil ? posOf(p.First) : p.To)
+//@ func (*RangeExpr).End
+//@   pure
+//@   requires p != nil
+//@   ensures result == (p.Expr3 != nil ? endOf(p.Expr3) : (p.Colon2 != 0 ? p.Colon2 + 1 : (p.Last != nil ? endOf(p.Last) : p.To + 1)))
+//@ func (*ForPhrase).Pos
+//@   pure
+//@   requires p != nil
+//@   ensures result == p.For
+//@ func (*ForPhrase).End
+//@   pure
+//@   requires p != nil && (p.Cond == nil ==> p.X != nil)
+//@   ensures result == (p.Cond != nil ? endOf(p.Cond) : endOf(p.X))
+//@ func (*ComprehensionExpr).Pos
+//@   pure
+//@   requires p != nil
+//@   ensures result == p.Lpos
+//@ func (*ComprehensionExpr).End
+//@   pure
+//@   requires p != nil
+//@   ensures result == p.Rpos + 1
+//@ func (*ForPhraseStmt).Pos
+//@   pure
+//@   requires p != nil && p.ForPhrase != nil
+//@   ensures result == p.ForPhrase.For
+//@ func (*ForPhraseStmt).End
+//@   pure
+//@   requires p != nil && wfBlockEnd(p.Body)
+//@   ensures result == End(p.Body)
+//@ func (*File).Pos
+//@   pure
+//@   requires f != nil && (f.Package == 0 ==> f.Name != nil)
+//@   ensures result == (f.Package != 0 ? f.Package : f.Name.NamePos)
+//@
+//@ pred isShadowDecl(d Decl) := istype(d, *FuncDecl) && d.(*FuncDecl).Shadow
+//@ func (*File).End
+//@   pure
+//@   requires f != nil && f.Name != nil
+//@   requires f.ShadowEntry != nil ==> (f.ShadowEntry.Body != nil ? wfBlockEnd(f.ShadowEntry.Body) : f.ShadowEntry.Type != nil && (f.ShadowEntry.Type.Results != nil ? wfFieldListEnd(f.ShadowEntry.Type.Results) : wfFieldListEnd(f.ShadowEntry.Type.Params)))
+//@   requires forall i in 0..len(f.Decls) :: f.Decls[i] != nil && (istype(f.Decls[i], *FuncDecl) ==> f.Decls[i].(*FuncDecl) != nil)
+//@   ensures [shadow] f.ShadowEntry != nil ==> result == End(f.ShadowEntry)
+//@   ensures [lastdecl] f.ShadowEntry == nil && len(f.Decls) > 0 && !isShadowDecl(f.Decls[len(f.Decls)-1]) ==> result == endOf(f.Decls[len(f.Decls)-1])
+//@   ensures [nodecls] f.ShadowEntry == nil && len(f.Decls) == 0 ==> result == (f.Package != 0 ? End(f.Name) : f.Name.NamePos)
+//@ loop (*File).End#1
+//@   invariant -1 <= n && n < len(f.Decls)
+//@   invariant forall j in n+1..len(f.Decls) :: isShadowDecl(f.Decls[j])
+//@   decreases n + 1
